@@ -537,7 +537,8 @@ def reset_psutil(psutil, root):
     psutil._psposix.get_terminal_map.cache_clear()
 
 
-def run_case(work, kind, mname, vanish=None, deny=None, sticky=False, ovanish=None, half=False, then=None):
+def run_case(work, kind, mname, vanish=None, deny=None, sticky=False, ovanish=None, half=False, then=None,
+             low=False, reuse=False):
     """Build the world, create the Process object (no faults), then run the method under the fault
     schedule.  Returns {"out": outcome, "log": labels, "gone": bool, "after": {method: outcome}}."""
     import psutil
@@ -550,6 +551,14 @@ def run_case(work, kind, mname, vanish=None, deny=None, sticky=False, ovanish=No
     try:
         w.fault = None
         p = psutil.Process(PID)
+        if low:
+            # the object's pid IS the cached lowest pid (module global left by the last pids() / process_iter():
+            # pid 1 of a container, first entry of a foreign PROCFS_PATH, a stale value)
+            psutil._LOWEST_PID = PID
+        if reuse:
+            # the pid is recycled: /proc/<pid> now describes ANOTHER process (other start time)
+            with open(os.path.join(root, str(PID), "stat"), "wb") as f:
+                f.write(_stat(PID, b"recycled", b"S", PPID, START + 777))
         w.reset()
         w.fault = w._fault
         w.vanish = vanish
